@@ -436,7 +436,12 @@ class EchoSess(asyncssh.SSHServerSession):
         if self.n:
             self.chan.write(b'w' * self.n)
 
+    echoed = [0]
+
     def data_received(self, data, datatype):
+        # (what the application writes back is its own output, sent in
+        # packets as small as the peer asked for: counted, see the bound)
+        EchoSess.echoed[0] += len(data)
         self.chan.write(data)
 
 
@@ -489,6 +494,7 @@ def run_plan(plan, sched_seed=None, sched_replay=None):
     # a legal burst is bounded by what the application asked to send (in
     # the worst case 1-byte packets, each preceded by an IGNORE)
     sim.work_limit = 3000 + 4 * plan.get('app_write', 0)
+    EchoSess.echoed[0] = 0
     role = plan['role']
     owners = []
     res = {'conn': None, 'exc': None, 'peer': None, 'raw': None,
@@ -849,7 +855,8 @@ def run_plan(plan, sched_seed=None, sched_replay=None):
                                   if role == 'client'
                                   else asyncssh.SSHServerConnection))
 
-    if out_bytes > 16 * hostile_in + 65536 + 400 * plan.get('app_write', 0):
+    if out_bytes > 16 * hostile_in + 65536 + \
+            400 * (plan.get('app_write', 0) + EchoSess.echoed[0]):
         world.violation('amplification', 'endpoint wrote %d bytes for %d '
                         'hostile input bytes' % (out_bytes, hostile_in))
 
